@@ -1,12 +1,14 @@
 #!/usr/bin/env python3
 """usage: tools/store_seed.py <ID> <srcdir>   - validates A/B from a seeding agent's directory in a scratch worktree of
-/repo (tools/validate_seeded.sh) and stores them as seeded/<ID>-C and seeded/<ID>-D"""
+/repo (tools/validate_seeded.sh) and stores them as seeded/<ID>-C and seeded/<ID>-D (or -E/-F with a third argument EF)"""
 import os, sys, shutil, json, subprocess
 HERE = os.path.dirname(os.path.dirname(os.path.abspath(__file__)))
 pid, src = sys.argv[1], sys.argv[2]
+letters = sys.argv[3] if len(sys.argv) > 3 else 'CD'
+rnd = {'CD': 2, 'EF': 3, 'GH': 4}[letters]
 head = subprocess.run(['git', '-C', '/repo', 'log', '--format=%h', '-1'], capture_output=True, text=True).stdout.strip()
 notes = open(os.path.join(src, 'notes.md')).read()
-for x, new in (('A', 'C'), ('B', 'D')):
+for x, new in (('A', letters[0]), ('B', letters[1])):
     r = subprocess.run(['bash', os.path.join(HERE, 'tools', 'validate_seeded.sh'), src, pid, x], capture_output=True, text=True)
     line = (r.stdout + r.stderr).strip().split('\n')[-1]
     print(line)
@@ -20,7 +22,7 @@ for x, new in (('A', 'C'), ('B', 'D')):
     shutil.copy(os.path.join(src, 'demo_%s.py' % x), os.path.join(d, 'demo.py'))
     open(os.path.join(d, 'notes.md'), 'w').write(notes)
     json.dump({"id": "%s-%s" % (pid, new), "breaks_property": pid,
-               "origin": "round 2 (2026-09-29): written by a fresh sub-agent that saw only the property text and a scratch worktree of the repo (nothing from /verif), asked for a subtle change",
+               "origin": "round %d (2026-09-29):" % rnd + " written by a fresh sub-agent that saw only the property text and a scratch worktree of the repo (nothing from /verif), asked for a subtle change",
                "needs_to_manifest": "see notes.md (section for change %s)" % x,
                "validated": {"by": "tools/validate_seeded.sh in a scratch worktree of /repo at HEAD " + head, "tests_with_patch": "61 passed", "demo_with_patch_exit": 1, "demo_without_patch_exit": 0},
                "detected_by": None}, open(os.path.join(d, 'meta.json'), 'w'), indent=1)
